@@ -27,6 +27,7 @@ type DBPlan struct {
 	Conns   [][]DMsg `json:"conns"`
 	Writes  []DWrite `json:"writes,omitempty"`
 	Veto    bool     `json:"veto,omitempty"` // a pre-put hook rejects every write to one key
+	Stall   int `json:"stall,omitempty"` // >0: flood scenario: the first connection's client stops reading after its first notification while another connection makes this many writes
 }
 
 // DMsg is one message sent on a connection.
@@ -110,6 +111,25 @@ func genC13(rng *rand.Rand, tier string) *DBPlan {
 			first = append(first, DMsg{Kind: "get", Key: k, Gap: 3})
 		}
 		p.Conns = [][]DMsg{first, second}
+	}
+	switch rng.IntN(40) {
+	case 0, 1, 2, 3, 4:
+		// queries cancelled at once, again and again: a cancel meets a query that is just finishing
+		var msgs []DMsg
+		for i, n := 0, 3+rng.IntN(5); i < n; i++ {
+			msgs = append(msgs, DMsg{Kind: "query", Query: []int{0, 1, 3, 7}[rng.IntN(4)], Gap: rng.IntN(2)})
+			msgs = append(msgs, DMsg{Kind: "cancel", Ref: len(msgs) - 1, Twice: rng.IntN(4) == 0})
+		}
+		p.Conns = append([][]DMsg{msgs}, p.Conns...)
+		if len(p.Conns) > 3 {
+			p.Conns = p.Conns[:3]
+		}
+	case 5, 6:
+		// flood: a subscriber whose client has stopped reading, and more writes than its feed holds
+		p.Stall = 1005 + rng.IntN(20)
+		p.Conns = [][]DMsg{{{Kind: "sub", Query: 1}}, {{Kind: "get", Key: 5, Gap: 3}}}
+		p.Writes = nil
+		return p
 	}
 	nw := rng.IntN(10)
 	for i := 0; i < nw; i++ {
@@ -206,9 +226,21 @@ func execC13(p *DBPlan, rc *simkit.RunCtx) {
 		}
 	}
 	var wg sync.WaitGroup
+	var stallGate chan struct{}
+	if p.Stall > 0 {
+		stallGate = make(chan struct{})
+		rc.Probe("stalled-subscriber-flood")
+	}
 	for ci, msgs := range p.Conns {
 		cs := &connState{reqs: map[string]*reqRec{}}
+		ci := ci
 		a := api.CreateDatabaseAPI(func(data []byte) {
+			if p.Stall > 0 && ci == 0 && stallGate != nil {
+				// the client of this connection has stopped reading: sending blocks until the end of the run
+				if strings.Contains(string(data), "|upd|") || strings.Contains(string(data), "|new|") {
+					<-stallGate
+				}
+			}
 			parts := strings.SplitN(string(data), "|", 4)
 			r := reply{Seq: simrt.Seq()}
 			if len(parts) > 0 {
@@ -296,8 +328,53 @@ func execC13(p *DBPlan, rc *simkit.RunCtx) {
 			}
 		}
 	}()
+	if p.Stall > 0 {
+		// the flood: writes through a third connection, every one of which must be answered
+		cs := &connState{reqs: map[string]*reqRec{}}
+		a := api.CreateDatabaseAPI(func(data []byte) {
+			parts := strings.SplitN(string(data), "|", 4)
+			r := reply{Seq: simrt.Seq()}
+			if len(parts) > 0 {
+				r.Op = parts[0]
+			}
+			if len(parts) > 1 {
+				r.Type = parts[1]
+			}
+			cs.replies = append(cs.replies, r)
+		})
+		cs.api = &a
+		s.conns = append(s.conns, cs)
+		wg.Add(1)
+		go func() {
+			defer wg.Done()
+			time.Sleep(5 * time.Millisecond)
+			for i := 0; i < p.Stall; i++ {
+				op := fmt.Sprintf("f%d", i)
+				cs.reqs[op] = &reqRec{Op: op, Kind: "update", Key: dKeys[0], Body: dBodies[0], Seq: simrt.Seq()}
+				cs.order = append(cs.order, op)
+				cs.api.Handle([]byte(op + "|update|" + dKeys[0] + "|" + dBodies[0]))
+				// a well-behaved client: the next write after the answer to this one (or after giving up on it)
+				for w := 0; w < 300 && len(cs.replies) <= i; w++ {
+					time.Sleep(time.Millisecond)
+				}
+				if len(cs.replies) <= i {
+					break // not answered: the check reports it
+				}
+			}
+		}()
+	}
 	wg.Wait()
 	simrt.AwaitQuiescence(3 * time.Second)
+	if stallGate != nil {
+		// while the stalled client still is not reading: every write of the flood has been answered
+		fc := s.conns[len(s.conns)-1]
+		if len(fc.replies) < len(fc.order) {
+			rc.Fail("C13.stall", "writes were not answered while the client of another, subscribed connection had stopped reading", fmt.Sprintf("%d of %d writes answered", len(fc.replies), len(fc.order)))
+		}
+		close(stallGate)
+		stallGate = nil
+		simrt.AwaitQuiescence(3 * time.Second)
+	}
 	// cancel everything that is still subscribed so that the handlers end
 	for ci, cs := range s.conns {
 		for _, op := range cs.order {
